@@ -115,7 +115,7 @@ func execPure(s PureScript) *vstat.Violation {
 	}
 	nt := len(s.Edits) >= 2
 	for _, c := range s.Classes {
-		if strings.HasSuffix(c, ">=99") || strings.HasPrefix(c, "alpn:first-") || strings.Contains(c, "sigalgs:grease-") && !strings.HasSuffix(c, "none") || strings.Contains(c, "supvers:grease-") && !strings.HasSuffix(c, "none") {
+		if strings.HasSuffix(c, ">=99") || strings.HasSuffix(c, ">=256") || strings.HasSuffix(c, ">=250") || strings.HasPrefix(c, "alpn:first-") || strings.Contains(c, "sigalgs:grease-") && !strings.HasSuffix(c, "none") || strings.Contains(c, "supvers:grease-") && !strings.HasSuffix(c, "none") {
 			nt = true
 		}
 	}
@@ -225,7 +225,7 @@ func genVariant(t *rapid.T, s hellogen.Spec) (hellogen.Spec, []string) {
 
 func TestPure(t *testing.T) {
 	colPure.Mandatory("edit:permute-ciphers", "edit:permute-extensions", "edit:insert-grease-cipher", "edit:insert-grease-extension", "edit:insert-grease-sigalgs",
-		"edit:insert-grease-supvers", "edit:insert-grease-groups", "ciphers:n=>=99", "exts:n>=99", "alpn:absent", "alpn:first-2char", "alpn:first-long", "sigalgs:absent", "supvers:absent", "exts:padding", "exts:psk", "exts:no-block")
+		"edit:insert-grease-supvers", "edit:insert-grease-groups", "ciphers:n=>=99", "ciphers:n=>=256", "exts:n>=99", "exts:n>=250", "alpn:absent", "alpn:first-2char", "alpn:first-long", "sigalgs:absent", "supvers:absent", "exts:padding", "exts:psk", "exts:no-block")
 	vstat.Run(t, vstat.Spec[PureScript]{
 		Col: colPure, Quick: 12000, Thorough: 300000,
 		Gen: func(t *rapid.T) PureScript {
